@@ -88,8 +88,9 @@ Theorem C05_route_advertise :
      norm_RA (o, (n, (s, (rs, (p, (None, sb)))))) = (o, (n, (s, (rs, (p, (Some (false, enc idlist p), sb))))))) /\
   (forall b m, decode_RA b = Some m ->
      wf_RA m = true /\ norm_RA m = m /\ exists b', encode_RA m = Some b' /\ decode_RA b' = Some m) /\
-  (forall m, wfb RAW_c (ra_wire m) = true -> ra_size m = lenN (enc RAW_c (ra_wire m))).
-Proof. exact (conj RA_lossless (conj norm_RA_plain (conj RA_stable ra_size_exact))). Qed.
+  (forall m, wfb RAW_c (ra_wire m) = true -> ra_size m = lenN (enc RAW_c (ra_wire m))) /\
+  (forall r, encode_Route r = Some (enc Route_c r)).
+Proof. exact (conj RA_lossless (conj norm_RA_plain (conj RA_stable (conj ra_size_exact encode_Route_is_codec)))). Qed.
 Print Assumptions C05_route_advertise.
 
 (** NodeInfo: DecodeNodeInfo (modelled with its sticky reader error, count
